@@ -19,8 +19,8 @@ from ginsim import probes, shrink, vfs, world
 
 ID = 'C19'
 LEVEL = 'exploration'
-QUICK_RUNS = 3000
-THOROUGH_RUNS = 60000
+QUICK_RUNS = 12000
+THOROUGH_RUNS = 300000
 SHRINK_BUDGET = 250
 RULE = ('run i draws from Random("<seed>/C19/<i>") 1-3 simulated files (root '
         'including children), each with 1-3 imports of the modules of a '
